@@ -255,14 +255,19 @@ int fegetround(void);
         int _D_result; \
         v->kind = CIF_UNK_KIND; \
         if (cif_buf_read(_buf, &_kind, sizeof(cif_kind_tp)) == sizeof(cif_kind_tp)) { \
+            UChar *_text; \
             switch(_kind) { \
                 case CIF_CHAR_KIND: \
-                    v->kind = CIF_CHAR_KIND; \
-                    /* fall through */ \
                 case CIF_NUMB_KIND: \
-                    DESERIALIZE_USTRING(v->as_char.text, _buf, vfail); \
-                    if ((_kind == CIF_NUMB_KIND) && ((_D_result = cif_value_parse_numb(v, v->as_char.text)) != CIF_OK))\
+                    DESERIALIZE_USTRING(_text, _buf, vfail); \
+                    if (_kind == CIF_CHAR_KIND) { \
+                        /* the value owns the text from here on; it is released if the value is cleaned */ \
+                        v->as_char.text = _text; \
+                        v->kind = CIF_CHAR_KIND; \
+                    } else if ((_D_result = cif_value_parse_numb(v, _text)) != CIF_OK) { \
+                        free(_text); \
                         FAIL(vfail, _D_result); \
+                    } \
                     DESERIALIZE_QUOTED_FLAG(v->as_char.quoted, _buf, vfail); \
                     break; \
                 case CIF_LIST_KIND: \
@@ -283,6 +288,7 @@ int fegetround(void);
             break; \
         } \
         FAILURE_HANDLER(vfail): \
+        cif_value_clean(v); \
         if (val != value) free(val); \
         DEFAULT_FAIL(onerr); \
     } \
